@@ -101,15 +101,14 @@ int main(int argc, char **argv) {
   setvbuf(stdout, NULL, _IOLBF, 0);   /* a request that hangs must not hide the answers before it */
   sexp_scheme_init();
   ctx = sexp_make_eval_context(NULL, NULL, NULL, 0, 0);
-  sexp_gc_var7(a, b, r, vmadd, vmsub, vmquo, vmrem);
-  sexp_gc_var2(ra, rb);
-  sexp_gc_preserve7(ctx, a, b, r, vmadd, vmsub, vmquo, vmrem);
-  sexp_gc_preserve2(ctx, ra, rb);
+  sexp vmadd, vmsub, vmquo, vmrem;
+  sexp_gc_var6(a, b, r, procs, ra, rb);
+  sexp_gc_preserve6(ctx, a, b, r, procs, ra, rb);
   sexp_load_standard_env(ctx, NULL, SEXP_SEVEN);
-  vmadd = sexp_eval_string(ctx, "(lambda (a b) (+ a b))", -1, NULL);
-  vmsub = sexp_eval_string(ctx, "(lambda (a b) (- a b))", -1, NULL);
-  vmquo = sexp_eval_string(ctx, "(lambda (a b) (quotient a b))", -1, NULL);
-  vmrem = sexp_eval_string(ctx, "(lambda (a b) (remainder a b))", -1, NULL);
+  procs = sexp_eval_string(ctx, "(vector (lambda (a b) (+ a b)) (lambda (a b) (- a b)) (lambda (a b) (quotient a b)) (lambda (a b) (remainder a b)))", -1, NULL);
+  if (!sexp_vectorp(procs)) { fprintf(stderr, "cannot compile vm probes\n"); sexp_print_exception(ctx, procs, sexp_current_error_port(ctx)); return 3; }
+  vmadd = sexp_vector_ref(procs, SEXP_ZERO); vmsub = sexp_vector_ref(procs, SEXP_ONE);
+  vmquo = sexp_vector_ref(procs, SEXP_TWO); vmrem = sexp_vector_ref(procs, SEXP_THREE);
   if (!sexp_procedurep(vmadd) || !sexp_procedurep(vmsub)) { fprintf(stderr, "cannot compile vm probes\n"); return 3; }
   while (fgets(line, sizeof line, stdin)) {
     char *f[8]; int nf = 0; char *tok = strtok(line, " \n");
@@ -221,7 +220,7 @@ int main(int argc, char **argv) {
     if (!inplace) { int k; for (k = 0; k < nsnap; k++) if (!same(&snaps[k], snapobj[k])) printf(" MUTATED-operand-%d", k); }
     printf("\n");
   }
-  sexp_gc_release7(ctx);
+  sexp_gc_release6(ctx);
   sexp_destroy_context(ctx);
   return 0;
 }
